@@ -30,11 +30,40 @@ def rpo(body):
 
 
 def reachable(body, start=0, cut_edges=(), cut_blocks=()):
-    """blocks reachable from `start` without using edges in cut_edges / entering cut_blocks"""
+    """blocks reachable from `start` without using edges in cut_edges / entering cut_blocks.
+    Where a spliced helper's return sites are correlated with the caller's test of the returned
+    value (body.d["body"]["corr"], see facts._correlation) a path keeps the variant it returned."""
     cut_edges = set(cut_edges)
     cut_blocks = set(cut_blocks)
     if start in cut_blocks:
         return set()
+    corr = body.d.get("body", {}).get("corr") if hasattr(body, "d") else None
+    if corr:
+        seen = {(start, (None,) * len(corr))}
+        work = [(start, (None,) * len(corr))]
+        out = {start}
+        while work:
+            n, tag = work.pop()
+            tag = list(tag)
+            for ci, c in enumerate(corr):
+                if n in c["assign"]:
+                    tag[ci] = c["assign"][n]
+            for s_ in body.succs(n):
+                if (n, s_) in cut_edges or s_ in cut_blocks or body.blocks[s_]["cleanup"]:
+                    continue
+                ok = True
+                for ci, c in enumerate(corr):
+                    if n == c["switch"] and tag[ci] is not None and c["succ"].get(tag[ci]) is not None and s_ != c["succ"][tag[ci]] and s_ in c["succ"].values():
+                        ok = False
+                if not ok:
+                    continue
+                st = (s_, tuple(tag))
+                if st in seen:
+                    continue
+                seen.add(st)
+                out.add(s_)
+                work.append(st)
+        return out
     seen = {start}
     work = [start]
     while work:
